@@ -178,10 +178,10 @@ def run_c20(rep, tier, known):
             if p in badpk:
                 shutil.rmtree(ws.root + "/" + p)
         stats["type_correct"] = len(good)
-        for p, label, body in good:
+        gens = ws.wire_many([["gen", "./" + p] for p, _, _ in good], timeout=60)
+        checks = ws.wire_many([["check", "./" + p] for p, _, _ in good], timeout=60)
+        for (p, label, body), (rc, out, err), (rc2, out2, err2) in zip(good, gens, checks):
             rep.evaluations += 1
-            rc, out, err = ws.wire(["gen", "./" + p], timeout=60)
-            rc2, out2, err2 = ws.wire(["check", "./" + p], timeout=60)
             why = []
             for cmd, c, e in (("gen", rc, err), ("check", rc2, err2)):
                 if panicked(e) or c not in (0, 1):
